@@ -478,6 +478,10 @@ class Step:
                     groups=call.groups,
                     success_group=call.success_group,
                     failure_group=call.failure_group)
+            except (ControlOfFlowInstruction, Stop):
+                # Control-of-Flow/Stop are instructions to go somewhere
+                # else, not errors per se.
+                raise
             except Exception as ex_info:
                 # don't want to log error twice - would've been logged already
                 # in called step-group.
